@@ -8,7 +8,7 @@ import PsutilModel.Spec.C16
 namespace Psutil.C16
 open Spec
 
-def Src.all : List Src := [.stat, .status, .smaps, .statm, .cmdline, .io]
+def Src.all : List Src := [.stat, .status, .smaps, .statm, .cmdline, .io, .rollup]
 def FFun.all : List FFun := [.cpuTimes, .memoryInfo, .ppid, .uids]
 def Exc.all : List Exc := [.accessDenied, .noSuchProcess, .zombieProcess, .notImplemented]
 
@@ -289,8 +289,8 @@ theorem readAll_cache (c : Cfg) (w : World) (l : List Src) (st : St) :
 theorem platCall_cache (c : Cfg) (m : Meth) (st : St) (w : World) :
     (platCall c m st w).1.cache = st.cache := by
   unfold platCall
-  have h1 := readAll_cache c w m.srcs st
-  rcases hm : readAll c w st m.srcs with ⟨st1, r1⟩
+  have h1 := readAll_cache c w (m.eff w) st
+  rcases hm : readAll c w st (m.eff w) with ⟨st1, r1⟩
   rw [hm] at h1
   cases r1 with
   | error e => exact h1
@@ -315,9 +315,9 @@ theorem frontBody_cache (c : Cfg) (m : Meth) (st : St) (w : World) :
 theorem platCall_sim (hg : Cfg.Good c) (h : R st ss) (m : Meth) (w : World) :
     R (platCall c m st w).1 (bodyS m ss w).1 ∧ (platCall c m st w).2 = (bodyS m ss w).2 := by
   unfold platCall bodyS
-  have h1 := readAll_sim hg w m.srcs h
-  rcases hm : readAll c w st m.srcs with ⟨st1, r1⟩
-  rcases hs : readAllS w ss m.srcs with ⟨ss1, r1'⟩
+  have h1 := readAll_sim hg w (m.eff w) h
+  rcases hm : readAll c w st (m.eff w) with ⟨st1, r1⟩
+  rcases hs : readAllS w ss (m.eff w) with ⟨ss1, r1'⟩
   rw [hm, hs] at h1
   obtain ⟨hR1, he⟩ := h1
   simp only at he hR1
@@ -574,6 +574,7 @@ theorem step_sim (hg : Cfg.Good c) {y : Sys} (h : R y.st ss) (op : Op) :
   | setVer s v => exact ⟨h, rfl, rfl⟩
   | setDenied s b => exact ⟨h, rfl, rfl⟩
   | setState p => exact ⟨h, rfl, rfl⟩
+  | setAbsent s b => exact ⟨h, rfl, rfl⟩
 
 theorem run_sim (hg : Cfg.Good c) (ops : List Op) {y : Sys} (h : R y.st ss) :
     R (runAll c y ops).st (runS c ss y.w ops).1 ∧ (runAll c y ops).w = (runS c ss y.w ops).2 ∧
@@ -638,15 +639,15 @@ theorem readAllS_out (w : World) (l : List Src) (ss : SSt) (h : ss.depth = 0) :
 theorem bodyS_out (m : Meth) (w : World) (ss ss' : SSt) (h : ss.depth = 0) (h' : ss'.depth = 0) :
     (bodyS m ss w).2 = (bodyS m ss' w).2 := by
   unfold bodyS
-  have h1 := readAllS_out w m.srcs ss h
-  have h2 := readAllS_out w m.srcs ss' h'
-  rcases hm : readAllS w ss m.srcs with ⟨s1, r1⟩
-  rcases hm' : readAllS w ss' m.srcs with ⟨s2, r2⟩
+  have h1 := readAllS_out w (m.eff w) ss h
+  have h2 := readAllS_out w (m.eff w) ss' h'
+  rcases hm : readAllS w ss (m.eff w) with ⟨s1, r1⟩
+  rcases hm' : readAllS w ss' (m.eff w) with ⟨s2, r2⟩
   rw [hm] at h1
   rw [hm'] at h2
   simp only at h1 h2
   rw [h1, h2]
-  cases readAllW w m.srcs with
+  cases readAllW w (m.eff w) with
   | error e => rfl
   | ok cs => simp only; split <;> rfl
 
@@ -732,8 +733,8 @@ theorem readAll_ne_ni (c : Cfg) (w : World) (l : List Src) (st : St) :
 theorem platCall_ne_ni (c : Cfg) (m : Meth) (st : St) (w : World) :
     (platCall c m st w).2 ≠ .error .notImplemented := by
   unfold platCall
-  have h1 := readAll_ne_ni c w m.srcs st
-  rcases hm : readAll c w st m.srcs with ⟨st1, r1⟩
+  have h1 := readAll_ne_ni c w (m.eff w) st
+  rcases hm : readAll c w st (m.eff w) with ⟨st1, r1⟩
   rw [hm] at h1
   cases r1 with
   | error e => exact h1
@@ -976,6 +977,7 @@ def staysIn : Nat → List Op → Bool
   | d, .setVer _ _ :: r => staysIn d r
   | d, .setDenied _ _ :: r => staysIn d r
   | d, .setState _ :: r => staysIn d r
+  | d, .setAbsent _ _ :: r => staysIn d r
   | d, .asDict _ :: r => staysIn d r
 
 section Pres
@@ -1005,8 +1007,8 @@ theorem readAllS_pres (w : World) (l : List Src) (ss : SSt) (h : P ss) : P (read
 
 theorem bodyS_pres (m : Meth) (w : World) (ss : SSt) (h : P ss) : P (bodyS m ss w).1 := by
   unfold bodyS
-  have h1 := readAllS_pres P hread w m.srcs ss h
-  rcases hm : readAllS w ss m.srcs with ⟨ss1, r1⟩
+  have h1 := readAllS_pres P hread w (m.eff w) ss h
+  rcases hm : readAllS w ss (m.eff w) with ⟨ss1, r1⟩
   rw [hm] at h1
   cases r1 with
   | error e => exact h1
@@ -1167,6 +1169,7 @@ theorem runS_presD (c : Cfg) (ops : List Op) (d : Nat) (hd : 1 ≤ d)
     | setVer x v => exact ih d hd _ _ h (by simpa [staysIn] using hin)
     | setDenied x b => exact ih d hd _ _ h (by simpa [staysIn] using hin)
     | setState p => exact ih d hd _ _ h (by simpa [staysIn] using hin)
+    | setAbsent x b => exact ih d hd _ _ h (by simpa [staysIn] using hin)
 
 end PresD
 
